@@ -35,6 +35,13 @@ func PopulateDir(fs hackpadfs.FS, k int) error {
 	if err := hackpadfs.WriteFullFile(fs, "f", []byte("x"), 0644); err != nil {
 		return err
 	}
+	// siblings whose names extend the directory's name: a prefix scan that ignores the element boundary would
+	// list "zz" (unknown) and "c01" (duplicate) as children of "d"
+	for _, sib := range []string{"dzz", "dXc01"} {
+		if err := hackpadfs.WriteFullFile(fs, sib, []byte("s"), 0644); err != nil {
+			return err
+		}
+	}
 	for i := 1; i <= k; i++ {
 		p := "d/" + ChildName(i)
 		if ChildIsDir(i) {
